@@ -760,9 +760,10 @@ func session(c *vm.Ctx, r *vm.Rand, si int, sess *sessionServer) {
 }
 
 func ping(c *vm.Ctx, r *vm.Rand) {
-	pl := server.NewPlayerList(r.Range(1, 100))
-	motd := chat.Message{Text: "hello " + genNames(r), Bold: r.Bool(), Color: chat.Gold}
-	pi := server.NewPingInfo("verif-"+genNames(r), r.Intn(1000), motd, nil)
+	maxPlayers, vName, vProto, motdText, motdBold := r.Range(1, 100), "verif-"+genNames(r), r.Intn(1000), "hello "+genNames(r), r.Bool()
+	pl := server.NewPlayerList(maxPlayers)
+	motd := chat.Message{Text: motdText, Bold: motdBold, Color: chat.Gold}
+	pi := server.NewPingInfo(vName, vProto, motd, nil)
 	srv := &server.Server{ListPingHandler: listPing{pl, pi}, LoginHandler: &server.MojangLoginHandler{Threshold: -1}, ConfigHandler: cfgHandler{}, GamePlay: &gamePlay{done: make(chan struct{})}}
 	l, err := mcnet.ListenMC("127.0.0.1:0")
 	if err != nil {
@@ -795,11 +796,15 @@ func ping(c *vm.Ctx, r *vm.Rand) {
 		c.Violation("ping/not-json", "status response is not JSON: "+err.Error(), wit())
 		return
 	}
-	md, _ := json.Marshal(motd)
-	want := fmt.Sprintf(`{"version":{"name":%q,"protocol":%d},"players":{"max":%d,"online":%d,"sample":[]},"description":%s}`, pi.Name(), pi.Protocol(767), pl.MaxPlayer(), pl.OnlinePlayer(), md)
+	// expected from what the handlers were constructed with (nobody has joined), not from their getters
+	md := fmt.Sprintf(`{"text":%q,"color":"gold"}`, motdText)
+	if motdBold {
+		md = fmt.Sprintf(`{"text":%q,"bold":true,"color":"gold"}`, motdText)
+	}
+	want := fmt.Sprintf(`{"version":{"name":%q,"protocol":%d},"players":{"max":%d,"online":0,"sample":[]},"description":%s}`, vName, vProto, maxPlayers, md)
 	json.Unmarshal([]byte(want), &wantV)
 	if !reflect.DeepEqual(gotV, wantV) {
-		c.Violation("ping/status-json-differs", fmt.Sprintf("status JSON %s differs from the status handler's data %s", data, want), wit())
+		c.Violation("ping/status-json-differs", fmt.Sprintf("status JSON %s differs from what the status handlers were constructed with: %s", data, want), wit())
 		return
 	}
 	c.Cover("ping.ok")
